@@ -28,7 +28,7 @@ STACKS = ['map/map', 'file/map', 'map/file', 'file/file', 'push', 'pop']
 
 
 def shards(tier, seed):
-    return split(tier, seed, 240, 12000, 40, 900)
+    return split(tier, seed, 3200, 32000, 40, 900)
 
 
 def fingerprint(d, prefix):
